@@ -131,7 +131,8 @@ def record(wd, name, cases, params, env=None):
     cf = os.path.join(wd, name + "-cases.ndjson")
     tf = os.path.join(wd, name + "-trace.ndjson")
     vlib.write_ndjson(cf, cases)
-    vlib.harness("c11", ["record", cf, tf, params["MAXPERM"], params["TWOG"], params["TWOP"]], env=env, timeout=3000)
+    vlib.harness("c11", ["record", cf, tf, params["MAXPERM"], params["TWOG"], params["TWOP"]], env=env,
+                 timeout=3000 if params["TWOG"] <= 2 else 10800)      # thorough: a busy machine must not turn into a tool error
     recs = vlib.read_ndjson(tf)
     if len(recs) != len(cases):
         vlib.tool_error("%s: %d cases but %d records" % (name, len(cases), len(recs)))
